@@ -10,13 +10,14 @@
 (***************************************************************************)
 EXTENDS Integers, Sequences, FiniteSets, TLC, Json, IOUtils, SequencesExt
 
-Flows == {"code", "implicit_idt", "implicit_idt_token", "hybrid_code_idt", "hybrid_code_idt_token", "refresh", "device"}
+\* refresh_hybrid: the refreshed grant started in the hybrid flow (its session once carried a c_hash)
+Flows == {"code", "implicit_idt", "implicit_idt_token", "hybrid_code_idt", "hybrid_code_idt_token", "refresh", "refresh_hybrid", "device"}
 Keys == {"rsa", "ec256", "jwk_es384", "jwk_es512", "jwk_rs384", "jwk_es384_nohdr"}   \* *_nohdr: the session's ID-token header does not name the algorithm
 Alg(k) == CASE k = "rsa" -> "RS256" [] k = "ec256" -> "ES256" [] k = "jwk_es512" -> "ES512" [] k = "jwk_rs384" -> "RS384" [] OTHER -> "ES384"
 HashBits(k) == CASE Alg(k) \in {"RS256", "ES256"} -> 256 [] Alg(k) \in {"ES384", "RS384"} -> 384 [] OTHER -> 512
 Presets == {"none", "future", "past"}
 
-AtHash(f) == f \in {"code", "implicit_idt_token", "hybrid_code_idt_token", "refresh", "device"}   \* an access token is delivered in the same response
+AtHash(f) == f \in {"code", "implicit_idt_token", "hybrid_code_idt_token", "refresh", "refresh_hybrid", "device"}   \* an access token is delivered in the same response
 CHash(f) == f \in {"hybrid_code_idt", "hybrid_code_idt_token"}                                    \* a code is delivered in the same response
 
 RowsA == { [tbl |-> "A", flow |-> f, openid |-> o, subject |-> s, key |-> k, preset |-> p,
@@ -37,7 +38,7 @@ RowsB == { [tbl |-> "B", flow |-> f, max_age |-> ma, offset |-> off, prompt |-> 
             h \in {"none", "same", "other", "same_expired"} }
 
 ASSUME \A r \in ValidA : r.issued => (r.openid /\ r.subject # "")
-ASSUME \A r \in ValidA : (r.flow = "refresh" => ~r.c_hash)
+ASSUME \A r \in ValidA : (r.flow \in {"refresh", "refresh_hybrid"} => ~r.c_hash)
 ASSUME PrintT(<<"ROWS", Cardinality(ValidA), Cardinality(RowsB)>>)
 ASSUME JsonSerialize(IOEnv.VERIF_TABLE_IDT, SetToSeq(ValidA) \o SetToSeq(RowsB))
 
